@@ -90,6 +90,13 @@ fn main() {
                 sched_assumptions,
             )
         }
+        "C15" => {
+            parts.push(make_part("sched-server", "SCHED", cli.cases(1_500, 80_000), || server::server_strategy(9, true), |_| (), |_, c| server::run_server_case("C15", c)));
+            (
+                "part sched-server: the whole Server over the in-memory listener under virtual time: bursts of 1-9 connections whose clients go away (after their answers, or in the middle of a small body), idle phases of 5-6 s, further bursts and single connections: the server keeps accepting and serving the later ones (else an exact deadlock report)",
+                sched_assumptions,
+            )
+        }
         "C17" => {
             parts.push(make_part("sched-queue", "SCHED", cli.cases(8_000, 400_000), queue::c17_queue_strategy, |_| (), |_, c| queue::run_queue_case("C17", c)));
             parts.push(make_part("seq-model", "SCHED", cli.cases(8_000, 400_000), queue::seq_strategy, |_| (), |_, c| queue::run_seq_case(c)));
